@@ -4,13 +4,17 @@
 -/
 import Cctz.Model.Tz
 import Cctz.Spec.TableSem
+import Cctz.Spec.TableTame
 import Cctz.Proofs.TableCivil
 
 namespace Cctz.C06
 open Cctz Cctz.Tz Cctz.Spec
 
+/-- (`TimesInRange`, `FirstEntryRoom`: see `convert_monotone_needs_TimesInRange` and
+`convert_monotone_needs_FirstEntryRoom`.) -/
 def convert_monotone_statement : Prop :=
   ∀ (z : Zone) (h1 h2 : Nat) (cs1 cs2 : Fields), TableWF z → CivilCols z → Separated z →
+    TimesInRange z → FirstEntryRoom z →
     Valid cs1 → Valid cs2 → NoShift z cs1 → NoShift z cs2 → secNum cs1 < secNum cs2 →
     (convert z h1 cs1).val.1 ≤ (convert z h2 cs2).val.1
 
@@ -19,5 +23,27 @@ def convert_def_statement : Prop :=
   ∀ (z : Zone) (h : Nat) (cs : Fields),
     (convert z h cs).val.1 =
       (if (makeTime z h cs).val.1.kind = .skipped then (makeTime z h cs).val.1.trans else (makeTime z h cs).val.1.pre)
+
+end Cctz.C06
+
+namespace Cctz.C06
+open Cctz Cctz.Tz Cctz.Spec Cctz.Tc
+
+theorem convert_def : convert_def_statement := by
+  intro z h cs
+  rfl
+
+theorem convert_monotone : convert_monotone_statement := by
+  intro z h1 h2 cs1 cs2 wf cols sep tir fer v1 v2 n1 n2 hlt
+  rw [convert_val, convert_val]
+  obtain ⟨a, ha, ha1, ha2⟩ := outcome_conv wf sep tir fer (makeTime_outcome z h1 cs1 wf cols sep v1 n1)
+  obtain ⟨b, hb, hb1, hb2⟩ := outcome_conv wf sep tir fer (makeTime_outcome z h2 cs2 wf cols sep v2 n2)
+  rw [ha, hb]
+  apply clamp64_mono
+  -- `a` is the first instant displaying `secNum cs1` or later; `b` displays `secNum cs2` or later
+  by_cases hab : a ≤ b
+  · exact hab
+  · have := ha2 b (by omega)
+    omega
 
 end Cctz.C06
